@@ -264,20 +264,33 @@ def execute(case):
             v.sample = {"lane": "unreadable", "argv": margv, "plan": inv["plan"], "status": r.status()}
             return v
 
+        # legal partial reads / EINTR on every file read (config files included) in a third of the worlds
+        sr = case["hashseed"] % 3
+        if sr == 1:
+            inv["plan"] = ["* read 0 * short 9,4,1,30"]
+            v.planned("short")
+        elif sr == 2 and case["hashseed"] % 2:
+            inv["plan"] = ["* read 1 * eintr 1"]
+            v.planned("eintr")
         r = core.run_inv(sc, inv)
         v.account(r)
+        if inv.get("plan") and any("SHORT" in e.raw or e.fault for e in r.events):
+            v.fired("short" if sr == 1 else "eintr")
         ab = core.abnormal(r)
         if ab:
             v.add("C14:abnormal|%s" % ab, "argv=%s status=%s stderr=%r" % (margv, r.status(), core.text_of(r.stderr)[:300]))
             return v
-        if r.exit != 0:
+        rejected = r.exit != 0
+        if rejected:
             v.probe("multi-run-rejected")
             v.info["rejected"] = 1
-            return v
         secs = parse_stdout_sections(r.stdout, os.path.join(sc.root, case["cwd"]), sc.root, set(probes))
         # hash-seed independence
         for k in (1, 2):
+            if rejected:
+                break
             inv2 = dict(inv)
+            inv2.pop("plan", None)
             inv2["hashseed"] = (case["hashseed"] + k * 7919) & 0xFFFFFFFF
             r2 = core.run_inv(sc, inv2)
             v.account(r2)
@@ -298,6 +311,12 @@ def execute(case):
             v.account(rr, nontrivial=False)
             if rr.exit != 0 or rr.signal:
                 v.probe("reference-rejected")
+                continue
+            if rejected:
+                # the explicit-config run accepts these options, so the discovered configuration was valid
+                if p not in secs:
+                    v.add("C14:valid-config-rejected", "%s: the invocation failed (exit %s, stderr %r) although its effective configuration %s is accepted when given explicitly; argv=%s" % (
+                        p, r.status(), core.text_of(r.stderr)[:200], eff, margv), probe=p)
                 continue
             rsec = parse_stdout_sections(rr.stdout, sc.root, sc.root, {"zref/" + name}).get("zref/" + name)
             got = secs.get(p)
